@@ -1,6 +1,7 @@
 """Property table: what each check runs per tier."""
 
 L6 = ["int", "unsigned", "double", "char", "string", "struct"]
+L7 = L6 + ["empty"]  # + an empty class with operator== (a "tag" label)
 
 
 def _classes(kinds, labels=("int", "string", "struct")):
@@ -48,7 +49,7 @@ def jobs_C02(tier, scale):
 def jobs_C03(tier, scale):
     mix = dict(add=38, setl=22, rm=12, rmloops=6, rmvtx=8, clear=5, resize=4, recip=5)
     q = tier == "quick"
-    return [hist_job("C03", _classes(["DL", "UL"], L6), mix, tier, scale, 16000, 400000, "label lifetime histories"),
+    return [hist_job("C03", _classes(["DL", "UL"], L7), mix, tier, scale, 16000, 400000, "label lifetime histories"),
             enum_job("hist", "histmask", dict(prop="C03", classes="DL:string;UL:struct", dmin=1, dmax=2, umin=1, umax=3 if q else 4, orders=2), tier,
                      "every labelled edge set of the small scopes, then every single mutator once (labels of all pairs read after it)")]
 
@@ -68,6 +69,8 @@ def jobs_C16(tier, scale):
     mixL = dict(add=55, rm=15, dedup=15, resize=5)
     mixMW = dict(add=85, dedup=8, resize=5)
     return [hist_job("C16", _classes(["DS", "US", "DL", "UL"], ["int", "string"]), mixL, tier, scale, 10000, 250000, "forced duplicates, simple and labelled", force=50, pairvalues=1),
+            hist_job("C16", _classes(["DS", "US", "DL", "UL", "DW", "UW"], ["int"]), dict(add=70, rm=8, dedup=12), tier, scale, 600, 15000, "forced duplicates on graphs with 33-70 vertices", force=50,
+                     pairvalues=1, bign_pct=100, max_size=60, final="dedup"),
             hist_job("C16", _classes(["DW", "UW"]), mixMW, tier, scale, 4000, 100000, "forced duplicates, weighted", force=60, pairvalues=1, final="dedup"),
             hist_job("C16", _classes(["DM", "UM"]), mixMW, tier, scale, 3000, 80000, "forced duplicates, multigraphs", force=100, pairvalues=1, final="dedup"),
             hist_job("C16", _classes(["DM", "UM"]), mixMW, tier, scale, 2000, 50000, "forced duplicates, multigraphs, per-pair multiplicities of several 10^8 (totals beyond 2^32)", force=100, pairvalues=1,
@@ -144,6 +147,8 @@ def jobs_C11(tier, scale):
     q = tier == "quick"
     cl = _classes(["DS", "US", "DL", "UL"], ["int"])
     jobs = [graph_job("C11", "bfs", cl, tier, scale, 4000, 150000, "generated graphs n<=10 (cycles through the source, loops, components, ties)", nmax=10, max_size=60),
+            graph_job("C11", "bfs", cl, tier, scale, 1000, 30000, "generated graphs whose neighbour lists hold repeated entries (forced duplicates): predecessor lists and path sets still without repeats",
+                      nmax=8, forced=15, max_size=60),
             enum_job("bfs", "graphs", dict(prop="C11", classes="DS:none", dmin=0, dmax=3, orders=2), tier, "every directed graph on <=3 vertices, all sources and destinations"),
             enum_job("bfs", "graphs", dict(prop="C11", classes="US:none", umin=0, umax=4, orders=2), tier, "every undirected graph on <=4 vertices, all sources and destinations")]
     if not q:
@@ -157,6 +162,8 @@ def jobs_C12(tier, scale):
     cl = _classes(["DW", "UW"])
     jobs = [graph_job("C12", "dij", cl, tier, scale, 4000, 100000, "generated graphs n<=12, integer weights 0..16 (exact)", nmax=12, xmax=17, extra="wmode int", max_size=60),
             graph_job("C12", "dij", cl, tier, scale, 2000, 60000, "generated graphs, weights k/8 (exact)", nmax=10, xmax=4096, extra="wmode frac", max_size=60),
+            graph_job("C12", "dij", cl, tier, scale, 1500, 40000, "generated graphs, weights k*2^-60 (exact, all below machine epsilon)", nmax=10, xmax=17, extra="wmode tiny", max_size=60),
+            graph_job("C12", "dij", cl, tier, scale, 1000, 30000, "generated graphs, weights k*2^40 (exact)", nmax=10, xmax=17, extra="wmode huge", max_size=60),
             graph_job("C12", "dij", cl, tier, scale, 2000, 60000, "generated graphs, weights k/7 (rounded, tolerance 2n*2^-52*max(1,ref))", nmax=10, xmax=600, extra="wmode rounded", max_size=60),
             enum_job("dij", "w4", dict(prop="C12", classes="DW:none", dmin=0, dmax=2, orders=2, extra="wmode abs012"), tier, "directed n<=2 x weights {absent,0,1,2}, all sources"),
             enum_job("dij", "w4", dict(prop="C12", classes="UW:none", umin=0, umax=3, orders=2, extra="wmode abs012"), tier, "undirected n<=3 x weights {absent,0,1,2}, all sources")]
@@ -173,6 +180,8 @@ def jobs_C19(tier, scale):
         return dict(engine="pbt", executor=executor, config="san", gen="family", cfg=c, cases=_n(tier, quick, thorough, scale), shards=8 if tier == "quick" else 16, max_size=100, label=label)
     return [fam("bfs", _classes(["DS", "US", "DL", "UL"], ["int"]), 600, 12000, "layered / grid / complete DAG / ladder / diamond-chain families, every source: BFS scans <= V and <= V+E"),
             fam("dij", _classes(["DW", "UW"]), 600, 12000, "the same families with all-zero, all-one and varying weights: Dijkstra scans <= V+E+1"),
+            fam("dij", _classes(["DW", "UW"]), 300, 6000, "hub improved m times with fan-out L, non-dyadic weights (stale queue entries must relax nothing)", families="fanin"),
+            graph_job("C19", "dij", _classes(["DW", "UW"]), tier, scale, 800, 20000, "random weighted graphs, weights k/7 (not exactly representable)", nmax=30, xmax=40, extra="wmode rounded", max_size=100),
             graph_job("C19", "bfs", _classes(["DS", "US"]), tier, scale, 1500, 40000, "random graphs n<=40", nmax=40, max_size=100),
             graph_job("C19", "dij", _classes(["DW", "UW"]), tier, scale, 1500, 40000, "random weighted graphs n<=30, weights 0..4 (ties and zero-weight cycles)", nmax=30, xmax=5, extra="wmode int", max_size=100)] + (
         [] if tier == "quick" else [fuzz_job("dij", "wgraph", "C19", tier, scale, 0, 6000000, "guided search: libFuzzer climbs scans/(V+E+1) through __libfuzzer_extra_counters", max_len=300)])
